@@ -19,6 +19,17 @@ import Ark.Model.Proto
     cofinv <id> <P>             => point     verdict: r•P = O (input) and impl = P
     mulcof <id> <P>             => point     verdict: impl = h•P
     rand   <id> <aff|proj> <P0> => point     model: `mul_by_cofactor(P0)`;  verdict: impl on the curve and r•impl = O
+
+  Two groups per configuration:
+    * the SPEC group `S` — textbook affine law with the LSB-first reference multiplication `smul`:
+      `Ark.AffPt` (prime field SW), `Ark.Subgroup.SWPt` over `Fq2`/`Fq3`, `Ark.ScalarMul.TEPt` for twisted Edwards
+      curves with a complete law (`a` square, `d` non-square), and for the two incomplete ones
+      (bls12_377 G1 in Edwards form, Bandersnatch) the Weierstrass model of the same curve through the
+      birational map (`teMap`);
+    * the EXECUTION group `G` of the model — the coordinate systems of the Rust code (`Ark.Curve.SW.Jac`,
+      `Ark.Curve.TE.Ext`: formulas of C03, cross-multiplied `==`, `into_affine` panicking on `Z = 0`), which costs
+      no field inversion per group operation.
+  Every verdict is computed in `S` from the input and the implementation's output only.
 -/
 namespace Ark.DrvC12
 open Ark Ark.Proto Ark.ScalarMul Ark.Subgroup
